@@ -444,3 +444,18 @@ func (g *gen) note(name string, n *pnode) {
 		g.canon[name] = canonText(nd)
 	}
 }
+
+// GenerateFor is the exported entry for other checks (C08): a generalised
+// pattern for node n, or "" if the node cannot be the root of a pattern.
+func GenerateFor(rng *rand.Rand, n ast.Node, depth int) string {
+	t := reflect.TypeOf(n).Elem().Name()
+	if _, ok := patTypes[t]; !ok || t == "Ellipsis" || t == "IndexListExpr" {
+		return ""
+	}
+	g := newGen(rng)
+	pn := g.decorate(g.conv(n, depth), 0)
+	if pn.kind == "any" || pn.kind == "str" || pn.kind == "nil" || (pn.kind == "bind" && len(pn.kids) == 0) {
+		return ""
+	}
+	return pn.text(2, rng)
+}
